@@ -46,6 +46,27 @@ Call == /\ l <= Len(Trace) /\ Trace[l].a = "call"
         /\ l' = l + 1
         /\ UNCHANGED <<avars, cur, tagOf>>
 
+\* A final response that meets a close need not be delivered: C10 promises delivery on a live connection, C16 that
+\* every request still awaiting its response is completed with an error. The real operation is then not atomic: its
+\* request is unregistered (and its id possibly given back) at one moment - visible to senders at once - and failed
+\* at a later one, which must lie within a close: after the close was called (in progress) or took effect.
+CloseInProgress == \E u \in ThreadNames : th[u].st \in {"called", "lin"} /\ th[u].e.op = "C"
+DropUnregister(t) ==
+    /\ th[t].st = "called" /\ th[t].e.op = "D" /\ th[t].e.last
+    /\ LET id == th[t].e.k IN
+       /\ id \in AllIds /\ ~aclosed /\ reg[id] # 0 /\ ~rq[reg[id]].done
+       /\ reg' = [reg EXCEPT ![id] = 0]
+       /\ \/ pool' = pool
+          \/ rq[reg[id]].managed /\ pool' = pool \cup {id}
+       /\ th' = [th EXCEPT ![t] = [st |-> "limbo", e |-> th[t].e, acc |-> FALSE, tag |-> reg[id]]]
+    /\ anframe' = anframe + 1
+    /\ UNCHANGED <<rq, aclosed, l, cur, ncall, tagOf>>
+DropFail(t) ==
+    /\ th[t].st = "limbo" /\ (CloseInProgress \/ aclosed)
+    /\ rq' = [rq EXCEPT ![th[t].tag] = IF @.done THEN @ ELSE [@ EXCEPT !.done = TRUE, !.failed = TRUE, !.silence = 0]]
+    /\ th' = [th EXCEPT ![t].st = "lin"]
+    /\ UNCHANGED <<pool, reg, aclosed, anframe, l, cur, ncall, tagOf>>
+
 \* the operation of thread t takes effect now
 Lin(t) ==
     /\ th[t].st = "called"
@@ -101,7 +122,7 @@ Obs == /\ l <= Len(Trace) /\ Trace[l].a = "obs"
        /\ l' = l + 1
        /\ UNCHANGED <<avars, cur, th, ncall, tagOf>>
 
-LNext == Call \/ (\E t \in ThreadNames : Lin(t)) \/ Ret \/ Obs
+LNext == Call \/ (\E t \in ThreadNames : Lin(t) \/ DropUnregister(t) \/ DropFail(t)) \/ Ret \/ Obs
 
 LSpec == LInit /\ [][LNext]_lvars
 
